@@ -966,6 +966,29 @@ def check_live_range(ctx, cfg, it, rule="C06.K"):
     return n
 
 
+def check_total(ctx, cfg, it, rule="C06.N"):
+    """The reference model never fails: a deque's pop / skip / len / fold do not panic whatever the argument. Under the invariant no method of
+    the iterator has a reachable panic of its own - no explicit panic, and no arithmetic check that can fail (`index + n` with an unbounded
+    n overflows: a panic where checks are on, a cursor that wraps backwards where they are off; `index + min(n, len)` is at most index_back)."""
+    from ..rules import reachable_panics
+    db = ctx.db(cfg)
+    n = 0
+    for nm in ("next", "next_back", "nth", "nth_back", "len", "size_hint", "count", "last", "fold", "rfold", "as_slice", "as_mut_slice"):
+        key = K[nm]
+        if db.get(key) is None:
+            continue   # an optional override that is not there: the provided method runs on the primitives judged here
+        byval = nm in ("count", "last", "fold", "rfold")
+        b, an = analyse(ctx, cfg, key, it, byval=byval)
+        if an.unknown:
+            ctx.ob(rule, key, UNKNOWN, "analysis incomplete: %s" % (an.unknown[:2],), at=b["at"], cfg=cfg)
+            continue
+        rp = reachable_panics(an)
+        ctx.ob(rule, key, not rp, "no panic of the method's own is reachable under index <= index_back <= N (explicit panics, overflow / underflow checks of the cursor arithmetic)" if not rp
+               else "; ".join(rp), at=b["at"], cfg=cfg)
+        n += 1
+    return n
+
+
 def check(ctx):
     ctx.explanation = EXPLANATION
     ctx.trusted = ["core::slice::Iter fold/rfold traverse ascending/descending; Zip pairs items in order", "rustc MIR construction"]
@@ -984,6 +1007,7 @@ def check(ctx):
         check_folds(ctx, cfg, it, "rfold")
         check_clone(ctx, cfg, it)
         check_live_range(ctx, cfg, it)
+        check_total(ctx, cfg, it)
         n = check_unchecked_bounds(ctx, cfg, it)
         ctx.floor("C06.U", "unchecked accesses to the iterator's storage (%s)" % cfg, n, 4)
         # FusedIterator / ExactSizeIterator are claimed by impls: they must exist for the checks above to matter
